@@ -291,7 +291,14 @@ def run(res):
                 L.touch(os.path.join(dest, p))
                 with open(os.path.join(dest, p), "w") as f:
                     f.write("content-%d" % c)
-        argv = [{"lnsym": "ln"}.get(m["op"], m["op"]), src, dest]
+        src_arg = src
+        if mi % 4 == 3 and m["op"] != "lnsym":
+            # the source tree is reached through a symbolic link (/data/current -> /data/store/run): the
+            # relative paths under the destination must be the same
+            src_arg = os.path.join(work, "srclink")
+            os.symlink(src, src_arg)
+            res.count("source-through-symlink")
+        argv = [{"lnsym": "ln"}.get(m["op"], m["op"]), src_arg, dest]
         if m["op"] == "lnsym":
             argv.append("--symbolic")
         for c in (m["chs"] or []):
